@@ -24,6 +24,7 @@ import (
 	"time"
 
 	"github.com/nais/wonderwall/pkg/cookie"
+	mw "github.com/nais/wonderwall/pkg/middleware"
 	"github.com/nais/wonderwall/pkg/openid"
 )
 
@@ -200,6 +201,38 @@ func chainScripts(cfg ckConfig, rng *rand.Rand, nrandom int) []ckScript {
 				add(it)
 			}
 		}
+		// NESTED ingress paths on one host (p a proper segment prefix of q): a HISTORY that leaves a stale counter on the less
+		// specific path - a request under p failed and was retried, the retry succeeded and the login was abandoned at the
+		// provider, so nothing cleared the counter scoped to p - followed by persistent failures under q. The browser then sends
+		// two counters with every request under q (RFC 6265 5.4: the one with the longer Path first); the failures under q must
+		// be judged on q's own counter.
+		W := func(via bool, ep, path string, fs []string) ckItem {
+			return ckItem{follow: true, via: via, ep: ep, path: path, faults: fs}
+		}
+		for _, p := range h.paths {
+			for _, q := range h.paths {
+				if p == q || !(p == "" || strings.HasPrefix(q, p+"/")) {
+					continue
+				}
+				po, qo := p+"/oauth2", q+"/oauth2"
+				add(W(false, "L", po+"/login", []string{"e500", "n"}), W(false, "L", qo+"/login", rep("e500", 8)))
+				add(W(false, "L", po+"/login", []string{"e500", "e500", "n"}), W(false, "L", qo+"/login", rep("e500", 8)))
+				add(W(false, "L", po+"/login", []string{"e500.t", "n"}), W(false, "L", qo+"/login", rep("e500.5", 8)))
+				add(W(false, "L", po+"/login", []string{"e500.r", "n"}), W(false, "C", qo+"/callback", append([]string{"e401"}, rep("e500.m", 8)...)))
+				add(W(false, "L", po+"/login", []string{"e500", "n"}), W(true, "L", qo+"/login", alt("n", "e500", 12)))
+				add(W(false, "L", po+"/login", []string{"e500", "n"}), W(true, "L", qo+"/login", alt("n", "e500.st", 12)))
+				// a session obtained under q (its successful callback clears q's counter only), stale counter under p, then the
+				// store fails under q
+				add(req("L", qo+"/login", "n"), req("C", qo+"/callback", "n"), W(false, "L", po+"/login", []string{"e500", "n"}),
+					W(false, "K", qo+"/logout/local", rep("e500.s", 8)))
+				add(req("L", qo+"/login", "n"), req("C", qo+"/callback", "n"), W(false, "L", po+"/login", []string{"e500", "e500", "n"}),
+					W(false, "O", qo+"/logout", rep("e500.sc", 8)))
+				// the stale counter survives a complete login under q; request by request (Set-Cookie headers recorded)
+				add(req("L", po+"/login", "e500"), req("L", po+"/login", "n"), req("L", qo+"/login", "e500"), req("L", qo+"/login", "e500"),
+					req("L", qo+"/login", "e500"), req("L", qo+"/login", "e500"), req("L", qo+"/login", "n"), req("C", qo+"/callback", "n"),
+					req("L", qo+"/login", "e500"), req("L", qo+"/login", "e500"), req("L", qo+"/login", "e500"))
+			}
+		}
 	}
 	return out
 }
@@ -261,6 +294,24 @@ func chainFor(start, o string, fs []string) ckItem {
 		}
 	}
 	return ckItem{follow: true, via: true, ep: start, path: o + "/login", faults: out}
+}
+
+// retryChainConfigs: the configurations under which the browser-followed chains run
+func retryChainConfigs() []ckConfig {
+	var chainCfgs []ckConfig
+	for _, ing := range [][]string{{"https://app.example.com"}, {"https://app.example.com/app"}, {"http://localhost:8080"}, {"http://localhost:8080/app"},
+		{"https://app.example.com", "https://app.example.com/app"}, {"https://app.example.com", "https://app.example.com/o"},
+		// nested below a prefix; three levels
+		{"https://app.example.com/a", "https://app.example.com/a/b"}, {"http://localhost:8080", "http://localhost:8080/b", "http://localhost:8080/b/c"}} {
+		chainCfgs = append(chainCfgs, ckConfig{secure: strings.HasPrefix(ing[0], "https"), sameSite: "Lax", prefix: defaultPrefix, ingresses: ing, logins: 5, window: 5 * time.Second})
+	}
+	chainCfgs = append(chainCfgs,
+		ckConfig{secure: true, sameSite: "Lax", prefix: "my.prefix", ingresses: []string{"https://app.example.com/app"}, logins: 5, window: 5 * time.Second},
+		ckConfig{secure: true, sameSite: "Lax", prefix: defaultPrefix, ingresses: []string{"https://sso.example.com"}, sso: true, domain: "example.com", name: "sso-session", logins: 5, window: 5 * time.Second},
+		ckConfig{secure: true, sameSite: "None", prefix: defaultPrefix, ingresses: []string{"https://sso.example.com/app"}, sso: true, domain: "example.com", name: "sso-session", logins: 5, window: 5 * time.Second},
+		// an SSO server with nested ingress paths: its cookies are all scoped to the domain with Path=/, one counter whatever the path
+		ckConfig{secure: true, sameSite: "Lax", prefix: defaultPrefix, ingresses: []string{"https://sso.example.com", "https://sso.example.com/sso"}, sso: true, domain: ".example.com", name: "sso-session", logins: 5, window: 5 * time.Second})
+	return chainCfgs
 }
 
 func rateLimitScripts(cfg ckConfig, rng *rand.Rand) (scripts []ckScript, gapsPer [][]time.Duration, withSession []bool) {
@@ -377,15 +428,7 @@ func runRetry(args []string) error {
 	counts["retry-values"] = n
 
 	// 2. chains followed by the harness browser
-	var chainCfgs []ckConfig
-	for _, ing := range [][]string{{"https://app.example.com"}, {"https://app.example.com/app"}, {"http://localhost:8080"}, {"http://localhost:8080/app"},
-		{"https://app.example.com", "https://app.example.com/app"}, {"https://app.example.com", "https://app.example.com/o"}} {
-		chainCfgs = append(chainCfgs, ckConfig{secure: strings.HasPrefix(ing[0], "https"), sameSite: "Lax", prefix: defaultPrefix, ingresses: ing, logins: 5, window: 5 * time.Second})
-	}
-	chainCfgs = append(chainCfgs,
-		ckConfig{secure: true, sameSite: "Lax", prefix: "my.prefix", ingresses: []string{"https://app.example.com/app"}, logins: 5, window: 5 * time.Second},
-		ckConfig{secure: true, sameSite: "Lax", prefix: defaultPrefix, ingresses: []string{"https://sso.example.com"}, sso: true, domain: "example.com", name: "sso-session", logins: 5, window: 5 * time.Second},
-		ckConfig{secure: true, sameSite: "None", prefix: defaultPrefix, ingresses: []string{"https://sso.example.com/app"}, sso: true, domain: "example.com", name: "sso-session", logins: 5, window: 5 * time.Second})
+	chainCfgs := retryChainConfigs()
 	nrandom := 4
 	if thorough {
 		nrandom = 80
@@ -507,7 +550,7 @@ var rtForms = []rtForm{
 	// userinfo survives the blanking of Scheme and Host in Retry: "//user:pw@/path", which http.Redirect cleans to "/user:pw@/path" ...
 	{"absolute-form naming the ingress, with userinfo", func(s, h, pq string) string { return s + "://user:pw@" + h + pq }, func(h string) string { return h }},
 	// ... unless url.Parse rejects the string (a '#' is ordinary in a request-target, so the query can end in an undecodable
-	// "fragment"): then the Location is written as is (Model/RetryUri.v, ru_retry_single_slash_refuted)
+	// "fragment"): then the Location is written as is (Properties/C04.v, c04_retry_single_slash_refuted)
 	{"absolute-form naming the ingress, with userinfo, query ending in an undecodable '#' part", func(s, h, pq string) string {
 		sep := "?"
 		if strings.Contains(pq, "?") {
@@ -515,6 +558,55 @@ var rtForms = []rtForm{
 		}
 		return s + "://u@" + h + pq + sep + "v=1#%zz"
 	}, func(h string) string { return h }},
+}
+
+// rtSpelling is one way of SPELLING the path of an owned endpoint <prefix><sub> in an origin-form request target: a path that
+// differs from the clean one but names the same resource after dot-segment removal, merging of slashes or percent-decoding -
+// what a router that normalises the path it matches on would route to the endpoint, while everything that reads the raw
+// request path (ingress matching, the retry Location) still sees the spelling. Browsers send duplicate slashes, ";params" and
+// "%2f" verbatim; literal dot segments reach a server through rewriting hops and non-browser clients.
+type rtSpelling struct{ name, path string }
+
+func pathSpellings(p, sub string) []rtSpelling {
+	inner := strings.TrimPrefix(p, "/")
+	back := p // a way back into the prefix after climbing out of it
+	if p == "" {
+		back = ""
+	}
+	tail := strings.TrimPrefix(sub, "/oauth2")
+	out := []rtSpelling{
+		{"leading //host/ then .. back to the path", "//evil.example/.." + back + sub},
+		{"leading //host/x/../.. back to the path", "//evil.example/x/../.." + back + sub},
+		{"leading //host/ then %2e%2e back to the path", "//evil.example/%2e%2e" + back + sub},
+		{"leading ///host/ then .. back to the path", "///evil.example/.." + back + sub},
+		{"leading /\\host/ then .. back to the path", "/\\evil.example/.." + back + sub},
+		{"leading /%2Fhost/ then .. back to the path", "/%2Fevil.example/.." + back + sub},
+		{"duplicate slash before the path", "/" + p + sub},
+		{"duplicate slash after the prefix", p + "/" + sub},
+		{"duplicate slash inside the endpoint path", p + "/oauth2/" + tail},
+		{"/./ before the path", "/." + p + sub},
+		{"/./ after the prefix", p + "/." + sub},
+		{"/x/../ before the path", "/x/.." + p + sub},
+		{"/../ above the root", "/.." + p + sub},
+		{"trailing slash", p + sub + "/"},
+		{"trailing /.", p + sub + "/."},
+		{"trailing /x/..", p + sub + "/x/.."},
+		{"/%2e/ after the prefix", p + "/%2e" + sub},
+		{"/x/%2e%2e/ before the path", "/x/%2e%2e" + p + sub},
+		{"%2f for the slashes of the endpoint path", p + strings.ReplaceAll(sub, "/", "%2f")},
+		{";params on the last segment", p + sub + ";x=y"},
+		{";params on the first segment", p + ";x" + sub},
+	}
+	if p != "" {
+		out = append(out,
+			rtSpelling{"/../ climbing out of and back into the prefix", p + "/../" + inner + sub},
+			rtSpelling{"/%2e%2e/ climbing out of and back into the prefix", p + "/%2e%2e/" + inner + sub},
+			rtSpelling{"duplicate slash inside the prefix", strings.Replace(p, "/", "//", 1) + sub},
+			rtSpelling{"prefix doubled, .. back", p + p + "/.." + sub})
+	} else {
+		out = append(out, rtSpelling{"/oauth2/../ climbing out of and back into the endpoint path", "/oauth2/.." + sub})
+	}
+	return out
 }
 
 // spellings of the part of the request-target before the path ({h} = the ingress host) and of the query, for the single-request sweep
@@ -610,7 +702,7 @@ func runRetryLoc(args []string) error {
 	win, wimpl := bufio.NewWriterSize(fin, 1<<20), bufio.NewWriterSize(fimpl, 1<<20)
 	defer win.Flush()
 	defer wimpl.Flush()
-	nLoc, nLink := 0, 0
+	nLoc, nLink, nDirect := 0, 0, 0
 
 	cfgs := []ckConfig{
 		{secure: true, sameSite: "Lax", prefix: defaultPrefix, ingresses: []string{"https://app.example.com"}, logins: 5, window: 5 * time.Second},
@@ -643,7 +735,19 @@ func runRetryLoc(args []string) error {
 	if *tier == "thorough" {
 		plan = append(plan, epFault{"L", "/login", "", "e500.t", false, ""}, epFault{"L", "/login", "", "e500.x", false, ""})
 	}
-	nChain, nReq, nRejected := 0, 0, 0
+	// the endpoints x failure causes driven under every path spelling (pathSpellings)
+	spellPlan := []epFault{
+		{"L", "/login", "", "n", false, ""}, {"L", "/login", "?redirect=/x", "e500", false, ""}, {"L", "/login", "", "e500.r", false, ""}, {"L", "/login", "", "n", true, ""},
+		{"C", "/callback", "?code=whatever&state=bogus", "e401", false, ""},
+		{"O", "/logout", "", "n", false, ""}, {"O", "/logout", "?redirect=/bye", "n", true, ""}, {"O", "/logout", "", "e500.s", true, ""},
+		{"B", "/logout/callback", "", "n", false, ""},
+		{"K", "/logout/local", "", "n", true, ""}, {"K", "/logout/local", "", "e500.s", true, ""},
+		{"F", "/logout/frontchannel", "", "s", false, ""},
+	}
+	// auto-login on the wildcard route: what is not routed to an owned endpoint is answered with a redirect to the login
+	// endpoint built around the request path (driven with the path spellings only)
+	cfgs = append(cfgs, ckConfig{secure: true, sameSite: "Lax", prefix: defaultPrefix, ingresses: []string{"https://app.example.com/app"}, logins: 5, window: 5 * time.Second, autoLogin: true})
+	nChain, nReq, nRejected, nSpelled := 0, 0, 0, 0
 	for _, cfg := range cfgs {
 		sharedKeys()
 		restore := cfg.configureNames()
@@ -659,97 +763,145 @@ func runRetryLoc(args []string) error {
 			if cfg.sso {
 				mode = "sso-server"
 			}
+			if cfg.autoLogin {
+				mode = "standalone, auto-login"
+			}
 			defaults := map[string]string{"provider": idpIssuer, "post_logout_redirect_uri": s.cfg.OpenID.PostLogoutRedirectURI}
 			if cfg.sso {
 				defaults["sso_server_default_redirect_url"] = s.cfg.SSO.ServerDefaultRedirectURL
-			}
-			h := hostsOf(cfg)[0]
-			p := h.paths[0]
-			scheme := "http"
-			if h.https {
-				scheme = "https"
 			}
 			// what the model is told about the configuration
 			ruCfg := "0 - - " + hxList(s.main.GetIngresses().Paths())
 			if cfg.sso {
 				ruCfg = "1 " + hx(s.cfg.SSO.Domain) + " " + hx(s.cfg.SSO.ServerDefaultRedirectURL) + " " + hxList(s.main.GetIngresses().Paths())
 			}
-			for _, form := range rtForms {
-				for _, xfh := range []string{"", h.hostport} {
-					for _, pl := range plan {
-						if xfh != "" && (pl.prelogin != "" || strings.Contains(form.name, "with userinfo")) {
-							continue // the later additions to the sweep run without X-Forwarded-Host only (Retry does not read it)
+			// one chain: the first request written as target(pq) with the given Host header, automatic retries followed by the
+			// cookie-keeping browser (same way of writing the request line, the path and query the Location names)
+			chain := func(h hostInfo, p string, formName string, target func(pq string) string, hostHdr, xfh string, pl epFault, pq string) bool {
+				b := newBrowser(s, h.https, h.hostport)
+				if pl.session {
+					if r := b.request("L", p+"/oauth2/login", "n", false); r.status != http.StatusFound {
+						runErr = fmt.Errorf("retryloc: login start %d", r.status)
+						return false
+					}
+					if r := b.request("C", p+"/oauth2/callback", "n", false); r.status != http.StatusFound {
+						runErr = fmt.Errorf("retryloc: callback %d", r.status)
+						return false
+					}
+				}
+				if pl.prelogin != "" {
+					if r := b.request("L", p+"/oauth2/login"+pl.prelogin, "n", false); r.status != http.StatusFound {
+						runErr = fmt.Errorf("retryloc: login start %d", r.status)
+						return false
+					}
+				}
+				nChain++
+				ep := pl.ep
+				for step := 0; step < 6; step++ {
+					tgt := target(pq)
+					rec, r, ok := b.sendTarget(tgt, hostHdr, xfh, pq, ep, pl.fault)
+					if !ok {
+						nRejected++
+						break
+					}
+					nReq++
+					var hrefs []string
+					if strings.Contains(rec.Body.String(), "<!DOCTYPE html>") {
+						for _, m := range hrefRe.FindAllStringSubmatch(rec.Body.String(), -1) {
+							hrefs = append(hrefs, m[1])
 						}
-						b := newBrowser(s, h.https, h.hostport)
-						if pl.session {
-							if r := b.request("L", p+"/oauth2/login", "n", false); r.status != http.StatusFound {
-								runErr = fmt.Errorf("retryloc: login start %d", r.status)
+					}
+					loc := rec.Header().Get("Location")
+					j, _ := json.Marshal(rtLocRec{Mode: mode, Ingresses: cfg.ingresses, Defaults: defaults, Chain: nChain, Step: step, Form: formName,
+						Target: tgt, HostHdr: hostHdr, XFH: xfh, Endpoint: ep, Fault: pl.fault, Session: pl.session,
+						BrowserAt: b.base() + pq, ReqHost: r.Host, Status: rec.Code, Location: loc, RetryHref: hrefs})
+					w.Write(j)
+					w.WriteByte('\n')
+					if rec.Code == http.StatusTemporaryRedirect || len(hrefs) > 0 {
+						// the login cookie as respondError reads it from this request
+						referer := "~"
+						if lc, err := openid.GetLoginCookie(r, s.main.Crypter); err == nil && lc != nil {
+							referer = hx(lc.Referer)
+						}
+						line := fmt.Sprintf("%s %s %s %s %s", ruCfg, hx(tgt), hx(hostHdr), hx(xfh), referer)
+						if rec.Code == http.StatusTemporaryRedirect {
+							fmt.Fprintf(win, "ru.loc %s\n", line)
+							fmt.Fprintln(wimpl, hx(loc))
+							nLoc++
+						} else {
+							fmt.Fprintf(win, "ru.link %s\n", line)
+							fmt.Fprintln(wimpl, hx(hrefs[0]))
+							nLink++
+						}
+					}
+					if rec.Code != http.StatusTemporaryRedirect {
+						break
+					}
+					lu, err := url.Parse(loc)
+					if err != nil {
+						break
+					}
+					pq = lu.EscapedPath()
+					if lu.RawQuery != "" {
+						pq += "?" + lu.RawQuery
+					}
+					ep = epOfPath(lu.Path)
+				}
+				return true
+			}
+			schemeOf := func(h hostInfo) string {
+				if h.https {
+					return "https"
+				}
+				return "http"
+			}
+			if !cfg.autoLogin {
+				h := hostsOf(cfg)[0]
+				p := h.paths[0]
+				for _, form := range rtForms {
+					for _, xfh := range []string{"", h.hostport} {
+						for _, pl := range plan {
+							if xfh != "" && (pl.prelogin != "" || strings.Contains(form.name, "with userinfo")) {
+								continue // the later additions to the sweep run without X-Forwarded-Host only (Retry does not read it)
+							}
+							form := form
+							if !chain(h, p, form.name, func(pq string) string { return form.target(schemeOf(h), h.hostport, pq) }, form.host(h.hostport), xfh,
+								pl, p+"/oauth2"+pl.sub+pl.query) {
 								return
 							}
-							if r := b.request("C", p+"/oauth2/callback", "n", false); r.status != http.StatusFound {
-								runErr = fmt.Errorf("retryloc: callback %d", r.status)
+						}
+					}
+				}
+			}
+			directDone := map[string]bool{}
+			// path SPELLINGS of every interactive endpoint under every configured prefix (origin-form, the ingress's own Host header)
+			for _, h := range hostsOf(cfg) {
+				for _, p := range h.paths {
+					for _, pl := range spellPlan {
+						for _, sp := range pathSpellings(p, "/oauth2"+pl.sub) {
+							if !chain(h, p, "origin-form, path spelling: "+sp.name, func(pq string) string { return pq }, h.hostport, "", pl, sp.path+pl.query) {
 								return
 							}
-						}
-						if pl.prelogin != "" {
-							if r := b.request("L", p+"/oauth2/login"+pl.prelogin, "n", false); r.status != http.StatusFound {
-								runErr = fmt.Errorf("retryloc: login start %d", r.status)
-								return
-							}
-						}
-						nChain++
-						pq, ep := p+"/oauth2"+pl.sub+pl.query, pl.ep
-						for step := 0; step < 6; step++ {
-							target := form.target(scheme, h.hostport, pq)
-							rec, r, ok := b.sendTarget(target, form.host(h.hostport), xfh, pq, ep, pl.fault)
-							if !ok {
-								nRejected++
-								break
-							}
-							nReq++
-							var hrefs []string
-							if strings.Contains(rec.Body.String(), "<!DOCTYPE html>") {
-								for _, m := range hrefRe.FindAllStringSubmatch(rec.Body.String(), -1) {
-									hrefs = append(hrefs, m[1])
+							nSpelled++
+							// On the unchanged code no spelling is routed to a handler that can fail into the error handler, so no 307 is
+							// observed for it through the router. The model is compared on the spelled request all the same: the request as
+							// net/http parses it, through the real ingress middleware, into the real Standalone.Retry and http.Redirect
+							// (the two calls respondError makes) - the one place of this driver that calls the handler's method directly.
+							tgt := sp.path + pl.query
+							if !directDone[tgt] {
+								directDone[tgt] = true
+								raw := "GET " + tgt + " HTTP/1.1\r\nHost: " + h.hostport + "\r\n\r\n"
+								if r, err := http.ReadRequest(bufio.NewReader(strings.NewReader(raw))); err == nil {
+									rec := httptest.NewRecorder()
+									ing := mw.Ingress(s.main)
+									ing.Handler(http.HandlerFunc(func(w http.ResponseWriter, r *http.Request) {
+										http.Redirect(w, r, s.main.Retry(r, nil), http.StatusTemporaryRedirect)
+									})).ServeHTTP(rec, r)
+									fmt.Fprintf(win, "ru.loc %s %s %s - ~\n", ruCfg, hx(tgt), hx(h.hostport))
+									fmt.Fprintln(wimpl, hx(rec.Header().Get("Location")))
+									nDirect++
 								}
 							}
-							loc := rec.Header().Get("Location")
-							j, _ := json.Marshal(rtLocRec{Mode: mode, Ingresses: cfg.ingresses, Defaults: defaults, Chain: nChain, Step: step, Form: form.name,
-								Target: target, HostHdr: form.host(h.hostport), XFH: xfh, Endpoint: ep, Fault: pl.fault, Session: pl.session,
-								BrowserAt: b.base() + pq, ReqHost: r.Host, Status: rec.Code, Location: loc, RetryHref: hrefs})
-							w.Write(j)
-							w.WriteByte('\n')
-							if rec.Code == http.StatusTemporaryRedirect || len(hrefs) > 0 {
-								// the login cookie as respondError reads it from this request
-								referer := "~"
-								if lc, err := openid.GetLoginCookie(r, s.main.Crypter); err == nil && lc != nil {
-									referer = hx(lc.Referer)
-								}
-								line := fmt.Sprintf("%s %s %s %s %s", ruCfg, hx(target), hx(form.host(h.hostport)), hx(xfh), referer)
-								if rec.Code == http.StatusTemporaryRedirect {
-									fmt.Fprintf(win, "ru.loc %s\n", line)
-									fmt.Fprintln(wimpl, hx(loc))
-									nLoc++
-								} else {
-									fmt.Fprintf(win, "ru.link %s\n", line)
-									fmt.Fprintln(wimpl, hx(hrefs[0]))
-									nLink++
-								}
-							}
-							if rec.Code != http.StatusTemporaryRedirect {
-								break
-							}
-							// the cookie-keeping browser follows the automatic retry: same way of writing the request line, the path
-							// and query the Location names
-							lu, err := url.Parse(loc)
-							if err != nil {
-								break
-							}
-							pq = lu.EscapedPath()
-							if lu.RawQuery != "" {
-								pq += "?" + lu.RawQuery
-							}
-							ep = epOfPath(lu.Path)
 						}
 					}
 				}
@@ -757,29 +909,33 @@ func runRetryLoc(args []string) error {
 			// single failing requests (a fresh browser each, nothing followed): spellings of the authority part x spellings of the
 			// query, on the login endpoint (provider refuses) and on the callback (no login cookie): what Retry makes of userinfo,
 			// of the redirect parameter (several, undecodable, with ';', off-site, backslash) and of a '#' in the request-target
-			for _, au := range rtAuthorities {
-				for _, q := range rtQueries {
-					for _, pl := range []struct{ ep, sub, fault string }{{"L", "/login", "e500"}, {"C", "/callback", "e401"}} {
-						b := newBrowser(s, h.https, h.hostport)
-						pq := p + "/oauth2" + pl.sub
-						target := strings.ReplaceAll(au, "{h}", h.hostport) + pq + q
-						rec, r, ok := b.sendTarget(target, h.hostport, "", pq, pl.ep, pl.fault)
-						if !ok {
-							nRejected++
-							continue
-						}
-						nChain++
-						nReq++
-						loc := rec.Header().Get("Location")
-						j, _ := json.Marshal(rtLocRec{Mode: mode, Ingresses: cfg.ingresses, Defaults: defaults, Chain: nChain, Step: 0,
-							Form: "authority and query spellings: " + au + " ... " + q, Target: target, HostHdr: h.hostport, Endpoint: pl.ep, Fault: pl.fault,
-							BrowserAt: b.base() + pq, ReqHost: r.Host, Status: rec.Code, Location: loc})
-						w.Write(j)
-						w.WriteByte('\n')
-						if rec.Code == http.StatusTemporaryRedirect {
-							fmt.Fprintf(win, "ru.loc %s %s %s - ~\n", ruCfg, hx(target), hx(h.hostport))
-							fmt.Fprintln(wimpl, hx(loc))
-							nLoc++
+			if !cfg.autoLogin {
+				h := hostsOf(cfg)[0]
+				p := h.paths[0]
+				for _, au := range rtAuthorities {
+					for _, q := range rtQueries {
+						for _, pl := range []struct{ ep, sub, fault string }{{"L", "/login", "e500"}, {"C", "/callback", "e401"}} {
+							b := newBrowser(s, h.https, h.hostport)
+							pq := p + "/oauth2" + pl.sub
+							target := strings.ReplaceAll(au, "{h}", h.hostport) + pq + q
+							rec, r, ok := b.sendTarget(target, h.hostport, "", pq, pl.ep, pl.fault)
+							if !ok {
+								nRejected++
+								continue
+							}
+							nChain++
+							nReq++
+							loc := rec.Header().Get("Location")
+							j, _ := json.Marshal(rtLocRec{Mode: mode, Ingresses: cfg.ingresses, Defaults: defaults, Chain: nChain, Step: 0,
+								Form: "authority and query spellings: " + au + " ... " + q, Target: target, HostHdr: h.hostport, Endpoint: pl.ep, Fault: pl.fault,
+								BrowserAt: b.base() + pq, ReqHost: r.Host, Status: rec.Code, Location: loc})
+							w.Write(j)
+							w.WriteByte('\n')
+							if rec.Code == http.StatusTemporaryRedirect {
+								fmt.Fprintf(win, "ru.loc %s %s %s - ~\n", ruCfg, hx(target), hx(h.hostport))
+								fmt.Fprintln(wimpl, hx(loc))
+								nLoc++
+							}
 						}
 					}
 				}
@@ -790,7 +946,7 @@ func runRetryLoc(args []string) error {
 			return runErr
 		}
 	}
-	fmt.Fprintf(os.Stderr, "retryloc: %d configurations, %d chains, %d requests, %d request lines rejected by net/http, %d retry Locations and %d error-page retry links as model lines\n",
-		len(cfgs), nChain, nReq, nRejected, nLoc, nLink)
+	fmt.Fprintf(os.Stderr, "retryloc: %d configurations, %d chains (%d with a path spelling), %d requests, %d request lines rejected by net/http, %d retry Locations and %d error-page retry links as model lines, "+
+		"%d spelled requests through Retry + http.Redirect directly as model lines\n", len(cfgs), nChain, nSpelled, nReq, nRejected, nLoc, nLink, nDirect)
 	return nil
 }
